@@ -7,6 +7,7 @@
 #include <errno.h>
 #include <time.h>
 #include <pthread.h>
+#include <locale.h>
 
 pv_ctx pv = { .prop = "?", .nshards = 1, .scale_pct = 100 };
 __thread pv_cur_t pv_cur;
@@ -357,6 +358,7 @@ int pv_main(int argc, char** argv, const char* prop, const pv_section* secs, int
         else if (!strcmp(argv[i], "--tag") && i + 1 < argc) pv.tag = argv[++i];
         else { fprintf(stderr, "pv: unknown argument %s\n", argv[i]); return 2; }
     }
+    if ((e = getenv("PV_LOCALE")) && *e) { if (!setlocale(LC_ALL, e)) { fprintf(stderr, "pv: locale %s not available\n", e); return 2; } }     /* the library must not care about the process locale */
     if (!pv.golden_dir) pv.golden_dir = getenv("PV_GOLDEN");
     if (!pv.golden_dir) { fprintf(stderr, "pv: --golden required\n"); return 2; }
     if (pv.nshards < 1 || pv.shard < 0 || pv.shard >= pv.nshards) { fprintf(stderr, "pv: bad shard\n"); return 2; }
